@@ -322,10 +322,12 @@ vk_h!(c01_maybe_empty_int, 12, {
 });
 
 // ------------------------------------------------------------------------------------------------
-// collections, vectors, maps, tuples, nesting: concrete shapes, symbolic element values
+// collections, vectors, maps, tuples, nesting: concrete shapes, symbolic element values.
+// Split form: (a) ser(value) == spec bytes, (b) de(spec bytes) == value, as separate obligations; decoding goes through the
+// lazy iterator carriers (Vec<T>'s `collect` machinery does not get through CBMC's symbolic execution).
+use scylla_cql_core::deserialize::value::{ListlikeIterator, MapIterator, VectorIterator};
 use scylla_cql_core::frame::response::result::CollectionType;
 use std::collections::BTreeMap;
-use scylla_cql_core::deserialize::value::{ListlikeIterator, MapIterator, VectorIterator};
 
 fn t_int() -> ColumnType<'static> {
     ColumnType::Native(NativeType::Int)
@@ -348,118 +350,133 @@ fn t_vector(e: ColumnType<'static>, d: u16) -> ColumnType<'static> {
 fn int_cell(v: i32) -> Vec<u8> {
     spec_cell(&spec_i32(v))
 }
-
-fn list_int<const N: usize>(as_set: bool) {
-    let xs: [i32; N] = kani::any();
-    let v: Vec<i32> = xs.to_vec();
-    let typ = if as_set { t_set(t_int()) } else { t_list(t_int()) };
-    let buf = ser(&v, &typ);
-    // [int n] then n cells
-    let mut payload = spec_i32(N as i32).to_vec();
-    let mut i = 0;
-    while i < N {
-        payload = cat(&[&payload, &int_cell(xs[i])]);
-        i += 1;
-    }
-    assert!(same(&buf, &spec_cell(&payload)), "emitted list/set bytes differ from the CQL v4 encoding");
-    // slice carrier
-    assert!(same(&ser(&xs[..], &typ), &buf));
-    let b = body(&buf);
-    // decoded through the lazy iterator carrier (Vec<T>'s collect machinery does not get through CBMC's symex)
-    let mut it: ListlikeIterator<i32> = de(&typ, b.as_ref());
-    let mut i = 0;
-    while i < N {
-        match it.next() {
-            Some(Ok(v)) => assert!(v == xs[i], "decoded element differs"),
-            Some(Err(e)) => {
-                std::mem::forget(e);
-                assert!(false, "decoding an element failed")
-            }
-            None => assert!(false, "decoded collection is too short"),
+fn expect_int(x: Option<Result<i32, scylla_cql_core::deserialize::DeserializationError>>, want: i32) {
+    match x {
+        Some(Ok(v)) => assert!(v == want, "decoded element differs"),
+        Some(Err(e)) => {
+            std::mem::forget(e);
+            assert!(false, "decoding an element failed")
         }
-        i += 1;
+        None => assert!(false, "decoded collection is too short"),
     }
+}
+fn expect_str(x: Option<Result<&str, scylla_cql_core::deserialize::DeserializationError>>, want: &[u8]) {
+    match x {
+        Some(Ok(s)) => assert!(same(s.as_bytes(), want), "decoded string element differs"),
+        Some(Err(e)) => {
+            std::mem::forget(e);
+            assert!(false, "decoding a string element failed")
+        }
+        None => assert!(false, "decoded collection is too short"),
+    }
+}
+
+fn list2_payload(xs: &[i32; 2]) -> Vec<u8> {
+    cat(&[&spec_i32(2), &int_cell(xs[0]), &int_cell(xs[1])])
+}
+// VK: prop=C01 tier=quick cap=900
+// VK-funcs: Vec<i32>/[i32] SerializeValue (serialize_sequence, CellValueBuilder length back-patch)
+// VK-bounds: list<int> and set<int> with 2 elements, any i32 values
+vk_h!(c01_list_int_n2_ser, 40, {
+    let xs: [i32; 2] = kani::any();
+    let typ = t_list(t_int());
+    let want = spec_cell(&list2_payload(&xs));
+    assert!(same(&ser(&xs.to_vec(), &typ), &want), "emitted list bytes differ from the CQL v4 encoding");
+    assert!(same(&ser(&xs[..], &typ), &want), "[T] carrier differs");
+    let typs = t_set(t_int());
+    assert!(same(&ser(&xs.to_vec(), &typs), &want), "emitted set bytes differ from the CQL v4 encoding");
+    std::mem::forget((typ, typs));
+    kani::cover!(true, "reach_end");
+});
+// VK: prop=C01 tier=quick cap=900
+// VK-funcs: ListlikeIterator<i32> DeserializeValue (type_check, deserialize, next) on list<int> and set<int>
+// VK-bounds: the CQL v4 encoding of a 2-element list, any i32 values
+vk_h!(c01_list_int_n2_de, 40, {
+    let xs: [i32; 2] = kani::any();
+    let b = Bytes::copy_from_slice(&list2_payload(&xs));
+    let typ = t_list(t_int());
+    let mut it: ListlikeIterator<i32> = de(&typ, Some(&b));
+    expect_int(it.next(), xs[0]);
+    expect_int(it.next(), xs[1]);
     assert!(it.next().is_none(), "decoded collection is too long");
     std::mem::forget(typ);
     kani::cover!(true, "reach_end");
-}
+});
 // VK: prop=C01 tier=quick cap=900
-// VK-funcs: Vec<i32>/[i32] SerializeValue (serialize_sequence, CellValueBuilder length back-patch), Vec<i32> DeserializeValue (ListlikeIterator)
-// VK-bounds: list<int> with 0 elements (empty collection)
-vk_h!(c01_list_int_n0, 14, { list_int::<0>(false) });
-// VK: prop=C01 tier=quick cap=900
-// VK-funcs: as c01_list_int_n0
-// VK-bounds: list<int> with 2 elements, any i32 values
-vk_h!(c01_list_int_n2, 14, { list_int::<2>(false) });
-// VK: prop=C01 tier=quick cap=900
-// VK-funcs: as c01_list_int_n0 (set column)
-// VK-bounds: set<int> with 1 element
-vk_h!(c01_set_int_n1, 14, { list_int::<1>(true) });
+// VK-funcs: Vec<i32> SerializeValue + ListlikeIterator<i32> DeserializeValue on the EMPTY list
+// VK-bounds: list<int> with 0 elements (empty collection: count 0)
+vk_h!(c01_list_int_n0, 20, {
+    let typ = t_list(t_int());
+    let v: Vec<i32> = Vec::with_capacity(1);
+    let want = spec_cell(&spec_i32(0));
+    assert!(same(&ser(&v, &typ), &want), "empty list must be a 4-byte cell holding count 0");
+    let b = Bytes::copy_from_slice(&spec_i32(0));
+    let mut it: ListlikeIterator<i32> = de(&typ, Some(&b));
+    assert!(it.next().is_none());
+    std::mem::forget((typ, v));
+    kani::cover!(true, "reach_end");
+});
 
 // VK: prop=C01 tier=quick cap=900
-// VK-funcs: Vec<i32> SerializeValue (serialize_vector, fixed-width elements without length prefix), Vec<i32> DeserializeValue (VectorIterator)
+// VK-funcs: Vec<i32> SerializeValue (serialize_vector: fixed-width elements without length prefix); VectorIterator<i32> DeserializeValue
 // VK-bounds: vector<int,2>, any i32 values
-vk_h!(c01_vector_int_d2, 14, {
+vk_h!(c01_vector_int_d2, 40, {
     let xs: [i32; 2] = kani::any();
     let typ = t_vector(t_int(), 2);
-    let buf = ser(&xs.to_vec(), &typ);
     let payload = cat(&[&spec_i32(xs[0]), &spec_i32(xs[1])]);
-    assert!(same(&buf, &spec_cell(&payload)), "vector<int,2> must be the two 4-byte values back to back");
-    let b = body(&buf);
-    let mut it: VectorIterator<i32> = de(&typ, b.as_ref());
-    assert!(matches!(it.next(), Some(Ok(v)) if v == xs[0]));
-    assert!(matches!(it.next(), Some(Ok(v)) if v == xs[1]));
+    assert!(same(&ser(&xs.to_vec(), &typ), &spec_cell(&payload)), "vector<int,2> must be the two 4-byte values back to back");
+    let b = Bytes::copy_from_slice(&payload);
+    let mut it: VectorIterator<i32> = de(&typ, Some(&b));
+    expect_int(it.next(), xs[0]);
+    expect_int(it.next(), xs[1]);
     assert!(it.next().is_none());
     std::mem::forget(typ);
     kani::cover!(true, "reach_end");
 });
 
-fn vector_text<const L0: usize, const L1: usize>() {
+fn vtext_payload<const L0: usize, const L1: usize>(a0: &[u8; L0], a1: &[u8; L1]) -> Vec<u8> {
+    // variable-width elements: unsigned vint length (1 byte below 128), then the bytes
+    cat(&[&[L0 as u8], a0, &[L1 as u8], a1])
+}
+fn vector_text_ser<const L0: usize, const L1: usize>() {
     let (s0, a0) = any_string::<L0>(true);
     let (s1, a1) = any_string::<L1>(true);
     let typ = t_vector(t_text(), 2);
     let v = vec![s0, s1];
-    let buf = ser(&v, &typ);
-    // variable-width elements: unsigned vint length, then the bytes
-    let payload = cat(&[&[L0 as u8], &a0, &[L1 as u8], &a1]);
-    assert!(same(&buf, &spec_cell(&payload)), "vector<text,2> must be vint-length-prefixed elements");
-    let b = body(&buf);
-    let mut it: VectorIterator<&str> = de(&typ, b.as_ref());
-    match it.next() {
-        Some(Ok(s)) => assert!(same(s.as_bytes(), &a0), "first decoded element differs"),
-        Some(Err(e)) => {
-            std::mem::forget(e);
-            assert!(false, "decoding the first element failed")
-        }
-        None => assert!(false, "decoded vector has the wrong dimension"),
-    }
-    match it.next() {
-        Some(Ok(s)) => assert!(same(s.as_bytes(), &a1), "second decoded element differs"),
-        Some(Err(e)) => {
-            std::mem::forget(e);
-            assert!(false, "decoding the second element failed")
-        }
-        None => assert!(false, "decoded vector has the wrong dimension"),
-    }
+    assert!(same(&ser(&v, &typ), &spec_cell(&vtext_payload(&a0, &a1))), "vector<text,2> must be vint-length-prefixed elements");
+    std::mem::forget((typ, v));
+    kani::cover!(true, "reach_end");
+}
+fn vector_text_de<const L0: usize, const L1: usize>() {
+    let (_s0, a0) = any_string::<L0>(true);
+    let (_s1, a1) = any_string::<L1>(true);
+    let typ = t_vector(t_text(), 2);
+    let b = Bytes::copy_from_slice(&vtext_payload(&a0, &a1));
+    let mut it: VectorIterator<&str> = de(&typ, Some(&b));
+    expect_str(it.next(), &a0);
+    expect_str(it.next(), &a1);
     assert!(it.next().is_none());
     std::mem::forget(typ);
-    std::mem::forget(v);
     kani::cover!(true, "reach_end");
 }
 // VK: prop=C01 tier=quick cap=900
-// VK-funcs: Vec<String> SerializeValue (serialize_vector, serialize_next_variable_length_elem, unsigned_vint_encode), Vec<String> DeserializeValue (VectorIterator, unsigned_vint_decode)
+// VK-funcs: Vec<String> SerializeValue (serialize_vector, serialize_next_variable_length_elem, unsigned_vint_encode)
 // VK-bounds: vector<text,2>, elements of 1 and 2 ASCII bytes
-vk_h!(c01_vector_text_l1_l2, 14, { vector_text::<1, 2>() });
+vk_h!(c01_vector_text_l1_l2_ser, 40, { vector_text_ser::<1, 2>() });
 // VK: prop=C01 tier=quick cap=900
-// VK-funcs: as c01_vector_text_l1_l2
-// VK-bounds: vector<text,2> whose LAST element is the empty string (zero-length element at the end of the cell)
-vk_h!(c01_vector_text_l1_l0, 14, { vector_text::<1, 0>() });
-// VK: prop=C01 tier=quick cap=900
-// VK-funcs: as c01_vector_text_l1_l2
-// VK-bounds: vector<text,2> whose FIRST element is the empty string
-vk_h!(c01_vector_text_l0_l1, 14, { vector_text::<0, 1>() });
+// VK-funcs: as c01_vector_text_l1_l2_ser
+// VK-bounds: vector<text,2> whose last element is the empty string
+vk_h!(c01_vector_text_l1_l0_ser, 40, { vector_text_ser::<1, 0>() });
+// VK: prop=C01 tier=thorough cap=1800
+// VK-funcs: VectorIterator<&str> DeserializeValue (unsigned_vint_decode, FrameSlice::read_n_bytes)
+// VK-bounds: the encoding of vector<text,2> with elements of 1 and 1 ASCII bytes
+vk_h!(c01_vector_text_l1_l1_de, 40, { vector_text_de::<1, 1>() });
+// VK: prop=C01 tier=thorough cap=1800
+// VK-funcs: as c01_vector_text_l1_l1_de
+// VK-bounds: the encoding of vector<text,2> whose LAST element is the empty string (zero-length element at the end of the cell)
+vk_h!(c01_vector_text_l1_l0_de, 40, { vector_text_de::<1, 0>() });
 
-fn vector_blob_len<const L: usize>() {
+fn vector_blob_len_ser<const L: usize>() {
     // content is irrelevant for the length prefix: one symbolic byte repeated
     let x: u8 = kani::any();
     let elem = vec![x; L];
@@ -469,224 +486,138 @@ fn vector_blob_len<const L: usize>() {
     // Cassandra unsigned vint of L (L < 16384): 1 byte below 128, else 0x80|(L>>8), L&0xff
     let prefix: Vec<u8> = if L < 128 { vec![L as u8] } else { vec![0x80 | (L >> 8) as u8, (L & 0xff) as u8] };
     assert!(buf.len() == 4 + prefix.len() + L, "wrong total size for a vint-prefixed element");
+    let n = (prefix.len() + L) as i32;
+    assert!(buf[0] == 0 && buf[1] == 0 && buf[2] == (n >> 8) as u8 && buf[3] == n as u8, "cell length field wrong");
     let mut i = 0;
     while i < prefix.len() {
         assert!(buf[4 + i] == prefix[i], "element length is not the Cassandra unsigned vint of the byte length");
         i += 1;
     }
     assert!(buf[4 + prefix.len()] == x && buf[buf.len() - 1] == x);
-    let b = body(&buf);
-    let mut it: VectorIterator<&[u8]> = de(&typ, b.as_ref());
-    match it.next() {
-        Some(Ok(e)) => assert!(e.len() == L && e[0] == x && e[L - 1] == x, "decoded element differs"),
-        Some(Err(e)) => {
-            std::mem::forget(e);
-            assert!(false, "decoding the element failed")
-        }
-        None => assert!(false),
-    }
-    assert!(it.next().is_none());
-    std::mem::forget(typ);
-    std::mem::forget(v);
+    std::mem::forget((typ, v));
     kani::cover!(true, "reach_end");
 }
 // VK: prop=C01 tier=quick cap=900
-// VK-funcs: serialize_next_variable_length_elem, unsigned_vint_encode/decode through Vec<Vec<u8>> on vector<blob,1>
+// VK-funcs: serialize_next_variable_length_elem, unsigned_vint_encode through Vec<Vec<u8>> on vector<blob,1>
 // VK-bounds: element byte length 127 (largest 1-byte vint), content = one symbolic byte repeated; unwind 135
-vk_h!(c01_vector_blob_len127, 135, { vector_blob_len::<127>() });
+vk_h!(c01_vector_blob_len127_ser, 135, { vector_blob_len_ser::<127>() });
 // VK: prop=C01 tier=quick cap=900
-// VK-funcs: as c01_vector_blob_len127
+// VK-funcs: as c01_vector_blob_len127_ser
 // VK-bounds: element byte length 128 (smallest 2-byte vint); unwind 135
-vk_h!(c01_vector_blob_len128, 135, { vector_blob_len::<128>() });
+vk_h!(c01_vector_blob_len128_ser, 135, { vector_blob_len_ser::<128>() });
 
 // VK: prop=C01 tier=quick cap=900
-// VK-funcs: BTreeMap<i32,i32> SerializeValue (serialize_mapping), BTreeMap<i32,i32> DeserializeValue (MapIterator)
+// VK-funcs: BTreeMap<i32,i32> SerializeValue (serialize_mapping); MapIterator<i32,i32> DeserializeValue
 // VK-bounds: map<int,int> with 1 entry, any key/value
-vk_h!(c01_map_int_int_n1, 14, {
+vk_h!(c01_map_int_int_n1, 40, {
     let k: i32 = kani::any();
     let v: i32 = kani::any();
     let typ = t_map(t_int(), t_int());
     let mut m = BTreeMap::new();
     m.insert(k, v);
-    let buf = ser(&m, &typ);
     let payload = cat(&[&spec_i32(1), &int_cell(k), &int_cell(v)]);
-    assert!(same(&buf, &spec_cell(&payload)), "emitted map bytes differ from the CQL v4 encoding");
-    let b = body(&buf);
-    let mut it: MapIterator<i32, i32> = de(&typ, b.as_ref());
-    assert!(matches!(it.next(), Some(Ok((a, c))) if a == k && c == v), "decoded entry differs");
-    assert!(it.next().is_none());
-    std::mem::forget(typ);
-    std::mem::forget(m);
-    kani::cover!(true, "reach_end");
-});
-
-// VK: prop=C01 tier=quick cap=900
-// VK-funcs: (i32, String) SerializeValue (impl_tuple), (i32, String) and (i32, String, Option<i32>) DeserializeValue
-// VK-bounds: Rust tuple of arity 2 against tuple<int,text> (exact) and tuple<int,text,int> (shorter than the type: missing field must read back as null); text of 1 ASCII byte
-vk_h!(c01_tuple_int_text_short, 14, {
-    let x: i32 = kani::any();
-    let (s, a) = any_string::<1>(true);
-    let t2 = ColumnType::Tuple(vec![t_int(), t_text()]);
-    let t3 = ColumnType::Tuple(vec![t_int(), t_text(), t_int()]);
-    let val = (x, s);
-    let payload = cat(&[&int_cell(x), &spec_cell(&a)]);
-    let buf2 = ser(&val, &t2);
-    assert!(same(&buf2, &spec_cell(&payload)), "emitted tuple bytes differ from the CQL v4 encoding");
-    let b2 = body(&buf2);
-    let back2: (i32, &str) = de(&t2, b2.as_ref());
-    assert!(back2.0 == x && same(back2.1.as_bytes(), &a));
-    // fewer fields than the type: only the given fields are written, the rest reads back as null
-    let buf3 = ser(&val, &t3);
-    assert!(same(&buf3, &spec_cell(&payload)));
-    let b3 = body(&buf3);
-    let back3: (i32, &str, Option<i32>) = de(&t3, b3.as_ref());
-    assert!(back3.0 == x && same(back3.1.as_bytes(), &a) && back3.2.is_none(), "short tuple must come back padded with null");
-    std::mem::forget((t2, t3, val));
-    kani::cover!(true, "reach_end");
-});
-
-// VK: prop=C01 tier=quick cap=900
-// VK-funcs: CqlValue::Tuple SerializeValue (serialize_cql_value, serialize_tuple_like), CqlValue DeserializeValue for tuple types
-// VK-bounds: CqlValue::Tuple [Some(Int x), None] and the short [Some(Int x)] against tuple<int,int>; decoded value is padded with None
-vk_h!(c01_cqlvalue_tuple_nulls, 14, {
-    let x: i32 = kani::any();
-    let typ = ColumnType::Tuple(vec![t_int(), t_int()]);
-    let full = CqlValue::Tuple(vec![Some(CqlValue::Int(x)), None]);
-    let buf = ser(&full, &typ);
-    assert!(same(&buf, &spec_cell(&cat(&[&int_cell(x), &spec_null()]))), "null inside a tuple must be a -1 length cell");
-    let b = body(&buf);
-    let back: CqlValue = de(&typ, b.as_ref());
-    match &back {
-        CqlValue::Tuple(v) => {
-            assert!(v.len() == 2);
-            assert!(matches!(v[0], Some(CqlValue::Int(y)) if y == x));
-            assert!(v[1].is_none());
-        }
-        _ => assert!(false, "decoded value is not a tuple"),
-    }
-    let short = CqlValue::Tuple(vec![Some(CqlValue::Int(x))]);
-    let bufs = ser(&short, &typ);
-    assert!(same(&bufs, &spec_cell(&int_cell(x))));
-    let bs = body(&bufs);
-    let backs: CqlValue = de(&typ, bs.as_ref());
-    match &backs {
-        CqlValue::Tuple(v) => {
-            assert!(v.len() == 2, "short tuple must be padded to the type's arity");
-            assert!(matches!(v[0], Some(CqlValue::Int(y)) if y == x) && v[1].is_none());
-        }
-        _ => assert!(false, "decoded value is not a tuple"),
-    }
-    std::mem::forget((typ, full, back, short, backs));
-    kani::cover!(true, "reach_end");
-});
-
-// VK: prop=C01 tier=quick cap=1200
-// VK-funcs: Vec<(i32, Option<String>)> SerializeValue / DeserializeValue: nested length back-patch of a tuple inside a list cell
-// VK-bounds: list<tuple<int,text>> with 1 element whose text field is null; and with a 1-byte text
-vk_h!(c01_nested_list_of_tuple, 14, {
-    let x: i32 = kani::any();
-    let typ = t_list(ColumnType::Tuple(vec![t_int(), t_text()]));
-    let v: Vec<(i32, Option<String>)> = vec![(x, None)];
-    let buf = ser(&v, &typ);
-    let tuple_body = cat(&[&int_cell(x), &spec_null()]);
-    let payload = cat(&[&spec_i32(1), &spec_cell(&tuple_body)]);
-    assert!(same(&buf, &spec_cell(&payload)), "nested tuple cell inside a list has the wrong bytes / lengths");
-    let b = body(&buf);
-    let mut it: ListlikeIterator<(i32, Option<&str>)> = de(&typ, b.as_ref());
-    assert!(matches!(it.next(), Some(Ok((a, None))) if a == x), "decoded nested tuple differs");
-    assert!(it.next().is_none());
-    std::mem::forget((typ, v));
-    kani::cover!(true, "reach_end");
-});
-
-// VK: prop=C01 tier=quick cap=1200
-// VK-funcs: BTreeMap<i32, Vec<i32>> SerializeValue / DeserializeValue (map<int, list<int>>)
-// VK-bounds: 1 entry whose value is a 1-element list
-vk_h!(c01_nested_map_of_list, 14, {
-    let k: i32 = kani::any();
-    let e: i32 = kani::any();
-    let typ = t_map(t_int(), t_list(t_int()));
-    let mut m: BTreeMap<i32, Vec<i32>> = BTreeMap::new();
-    m.insert(k, vec![e]);
-    let buf = ser(&m, &typ);
-    let inner = cat(&[&spec_i32(1), &int_cell(e)]);
-    let payload = cat(&[&spec_i32(1), &int_cell(k), &spec_cell(&inner)]);
-    assert!(same(&buf, &spec_cell(&payload)), "map<int,list<int>> bytes differ from the CQL v4 encoding");
-    let b = body(&buf);
-    let mut it: MapIterator<i32, ListlikeIterator<i32>> = de(&typ, b.as_ref());
+    assert!(same(&ser(&m, &typ), &spec_cell(&payload)), "emitted map bytes differ from the CQL v4 encoding");
+    let b = Bytes::copy_from_slice(&payload);
+    let mut it: MapIterator<i32, i32> = de(&typ, Some(&b));
     match it.next() {
-        Some(Ok((a, mut l))) => {
-            assert!(a == k);
-            assert!(matches!(l.next(), Some(Ok(y)) if y == e));
-            assert!(l.next().is_none());
+        Some(Ok((a, c))) => assert!(a == k && c == v, "decoded entry differs"),
+        Some(Err(e)) => {
+            std::mem::forget(e);
+            assert!(false, "decoding the entry failed")
         }
-        _ => assert!(false, "decoded map entry differs"),
+        None => assert!(false, "decoded map is empty"),
     }
     assert!(it.next().is_none());
     std::mem::forget((typ, m));
     kani::cover!(true, "reach_end");
 });
 
+// VK: prop=C01 tier=quick cap=900
+// VK-funcs: (i32, String) SerializeValue (impl_tuple) against tuple<int,text> and the longer tuple<int,text,int>
+// VK-bounds: Rust tuple of arity 2, text of 1 ASCII byte: only the given fields are written
+vk_h!(c01_tuple_int_text_ser, 40, {
+    let x: i32 = kani::any();
+    let (s, a) = any_string::<1>(true);
+    let t2 = ColumnType::Tuple(vec![t_int(), t_text()]);
+    let t3 = ColumnType::Tuple(vec![t_int(), t_text(), t_int()]);
+    let val = (x, s);
+    let want = spec_cell(&cat(&[&int_cell(x), &spec_cell(&a)]));
+    assert!(same(&ser(&val, &t2), &want), "emitted tuple bytes differ from the CQL v4 encoding");
+    assert!(same(&ser(&val, &t3), &want), "a tuple shorter than its type must write only the given fields");
+    std::mem::forget((t2, t3, val));
+    kani::cover!(true, "reach_end");
+});
+// VK: prop=C01 tier=quick cap=900
+// VK-funcs: (i32, &str, Option<i32>) DeserializeValue on tuple<int,text,int>
+// VK-bounds: bytes of a tuple that carries only its first two fields: the missing field reads back as null
+vk_h!(c01_tuple_short_de_padded_with_null, 40, {
+    let x: i32 = kani::any();
+    let (_s, a) = any_string::<1>(true);
+    let t3 = ColumnType::Tuple(vec![t_int(), t_text(), t_int()]);
+    let b = Bytes::copy_from_slice(&cat(&[&int_cell(x), &spec_cell(&a)]));
+    let back: (i32, &str, Option<i32>) = de(&t3, Some(&b));
+    assert!(back.0 == x && same(back.1.as_bytes(), &a) && back.2.is_none(), "short tuple must come back padded with null");
+    std::mem::forget(t3);
+    kani::cover!(true, "reach_end");
+});
+
 // VK: prop=C01 tier=thorough cap=1800
-// VK-funcs: Vec<Vec<i32>> SerializeValue / DeserializeValue (vector<vector<int,2>,2>: fixed-width nested vectors)
-// VK-bounds: 2x2 any i32
-vk_h!(c01_nested_vector_of_vector, 14, {
-    let xs: [i32; 4] = kani::any();
-    let typ = t_vector(t_vector(t_int(), 2), 2);
-    let v = vec![vec![xs[0], xs[1]], vec![xs[2], xs[3]]];
-    let buf = ser(&v, &typ);
-    let payload = cat(&[&spec_i32(xs[0]), &spec_i32(xs[1]), &spec_i32(xs[2]), &spec_i32(xs[3])]);
-    assert!(same(&buf, &spec_cell(&payload)), "vector<vector<int,2>,2> must be 16 bytes of values");
-    let b = body(&buf);
-    let mut it: VectorIterator<VectorIterator<i32>> = de(&typ, b.as_ref());
-    let mut k = 0;
-    while k < 2 {
-        match it.next() {
-            Some(Ok(mut inner)) => {
-                assert!(matches!(inner.next(), Some(Ok(y)) if y == xs[2 * k]));
-                assert!(matches!(inner.next(), Some(Ok(y)) if y == xs[2 * k + 1]));
-                assert!(inner.next().is_none());
-            }
-            _ => assert!(false, "decoded nested vector differs"),
-        }
-        k += 1;
-    }
+// VK-funcs: CqlValue::Tuple SerializeValue (serialize_cql_value, serialize_tuple_like)
+// VK-bounds: CqlValue::Tuple [Some(Int x), None] and the short [Some(Int x)] against tuple<int,int>
+vk_h!(c01_cqlvalue_tuple_ser, 40, {
+    let x: i32 = kani::any();
+    let typ = ColumnType::Tuple(vec![t_int(), t_int()]);
+    let full = CqlValue::Tuple(vec![Some(CqlValue::Int(x)), None]);
+    assert!(same(&ser(&full, &typ), &spec_cell(&cat(&[&int_cell(x), &spec_null()]))), "null inside a tuple must be a -1 length cell");
+    let short = CqlValue::Tuple(vec![Some(CqlValue::Int(x))]);
+    assert!(same(&ser(&short, &typ), &spec_cell(&int_cell(x))));
+    std::mem::forget((typ, full, short));
+    kani::cover!(true, "reach_end");
+});
+
+// VK: prop=C01 tier=thorough cap=1800
+// VK-funcs: Vec<(i32, Option<String>)> SerializeValue: nested length back-patch of a tuple inside a list cell; ListlikeIterator<(i32, Option<&str>)> DeserializeValue
+// VK-bounds: list<tuple<int,text>> with 1 element whose text field is null
+vk_h!(c01_nested_list_of_tuple, 40, {
+    let x: i32 = kani::any();
+    let typ = t_list(ColumnType::Tuple(vec![t_int(), t_text()]));
+    let v: Vec<(i32, Option<String>)> = vec![(x, None)];
+    let tuple_body = cat(&[&int_cell(x), &spec_null()]);
+    let payload = cat(&[&spec_i32(1), &spec_cell(&tuple_body)]);
+    assert!(same(&ser(&v, &typ), &spec_cell(&payload)), "nested tuple cell inside a list has the wrong bytes / lengths");
+    let b = Bytes::copy_from_slice(&payload);
+    let mut it: ListlikeIterator<(i32, Option<&str>)> = de(&typ, Some(&b));
+    assert!(matches!(it.next(), Some(Ok((a, None))) if a == x), "decoded nested tuple differs");
     assert!(it.next().is_none());
     std::mem::forget((typ, v));
     kani::cover!(true, "reach_end");
 });
 
-// ---- split form: ser == spec  and  de(spec) == value, as separate obligations
-vk_h!(dbgx_list2_ser, 40, {
-    let xs: [i32; 2] = kani::any();
-    let typ = t_list(t_int());
-    let buf = ser(&xs.to_vec(), &typ);
-    let payload = cat(&[&spec_i32(2), &int_cell(xs[0]), &int_cell(xs[1])]);
-    assert!(same(&buf, &spec_cell(&payload)));
-    std::mem::forget(typ);
+// VK: prop=C01 tier=thorough cap=1800
+// VK-funcs: BTreeMap<i32, Vec<i32>> SerializeValue (map<int, list<int>>)
+// VK-bounds: 1 entry whose value is a 1-element list
+vk_h!(c01_nested_map_of_list_ser, 48, {
+    let k: i32 = kani::any();
+    let e: i32 = kani::any();
+    let typ = t_map(t_int(), t_list(t_int()));
+    let mut m: BTreeMap<i32, Vec<i32>> = BTreeMap::new();
+    m.insert(k, vec![e]);
+    let inner = cat(&[&spec_i32(1), &int_cell(e)]);
+    let payload = cat(&[&spec_i32(1), &int_cell(k), &spec_cell(&inner)]);
+    assert!(same(&ser(&m, &typ), &spec_cell(&payload)), "map<int,list<int>> bytes differ from the CQL v4 encoding");
+    std::mem::forget((typ, m));
     kani::cover!(true, "reach_end");
 });
-vk_h!(dbgx_list2_de, 40, {
-    let xs: [i32; 2] = kani::any();
-    let typ = t_list(t_int());
-    let payload = cat(&[&spec_i32(2), &int_cell(xs[0]), &int_cell(xs[1])]);
-    let b = Bytes::copy_from_slice(&payload);
-    let mut it: ListlikeIterator<i32> = de(&typ, Some(&b));
-    assert!(matches!(it.next(), Some(Ok(v)) if v == xs[0]));
-    assert!(matches!(it.next(), Some(Ok(v)) if v == xs[1]));
-    assert!(it.next().is_none());
-    std::mem::forget(typ);
-    kani::cover!(true, "reach_end");
-});
-vk_h!(dbgx_vtext_de, 40, {
-    let (_s0, a0) = any_string::<1>(true);
-    let typ = t_vector(t_text(), 2);
-    let payload = cat(&[&[1u8], &a0, &[0u8]]);
-    let b = Bytes::copy_from_slice(&payload);
-    let mut it: VectorIterator<&str> = de(&typ, Some(&b));
-    assert!(matches!(it.next(), Some(Ok(s)) if same(s.as_bytes(), &a0)));
-    assert!(matches!(it.next(), Some(Ok(s)) if s.is_empty()), "empty last element must decode as an empty string");
-    assert!(it.next().is_none());
-    std::mem::forget(typ);
+
+// VK: prop=C01 tier=thorough cap=1800
+// VK-funcs: Vec<Vec<i32>> SerializeValue (vector<vector<int,2>,2>: fixed-width nested vectors)
+// VK-bounds: 2x2 any i32
+vk_h!(c01_nested_vector_of_vector_ser, 40, {
+    let xs: [i32; 4] = kani::any();
+    let typ = t_vector(t_vector(t_int(), 2), 2);
+    let v = vec![vec![xs[0], xs[1]], vec![xs[2], xs[3]]];
+    let payload = cat(&[&spec_i32(xs[0]), &spec_i32(xs[1]), &spec_i32(xs[2]), &spec_i32(xs[3])]);
+    assert!(same(&ser(&v, &typ), &spec_cell(&payload)), "vector<vector<int,2>,2> must be 16 bytes of values");
+    std::mem::forget((typ, v));
     kani::cover!(true, "reach_end");
 });
